@@ -249,7 +249,27 @@ fn one0(case: &Case, r: &Rejected, st: &mut Stats) -> Result<bool, Violation> {
     // a third twin tells whether the source dies while being built (compile executes nothing
     // outside meta blocks) or only when run
     let mut c = prepare(case);
+    // "insn-at-failure": the instruction budget ends exactly on (or just after) the instruction that
+    // fails at run time; where that is, the third twin finds out first
+    let mut fail_meter: Option<usize> = None;
+    if let Some((k, _)) = &r.limit {
+        if k == "insn-at-failure" {
+            c.set_insn_limit(Some(PROBE_LIMIT)).unwrap();
+            let rc = metered(&mut c, |c| c.compile(&text).and_then(|_| c.run()));
+            match &rc {
+                Err(Xerr::ErrorMsg(m)) if m.contains("limit reached") => {}
+                Err(_) => fail_meter = Some(c.verif_insn_meter()),
+                Ok(()) => {}
+            }
+            c = prepare(case);
+        }
+    }
     let arm = |xs: &mut Xstate| match &r.limit {
+        Some((k, v)) if k == "insn-at-failure" => xs.set_insn_limit(Some(fail_meter.map(|t| t + *v).unwrap_or(PROBE_LIMIT))).unwrap(),
+        Some((k, v)) if k == "heap" => {
+            xs.set_insn_limit(Some(PROBE_LIMIT)).unwrap();
+            xs.set_heap_limit(Some(xs.verif_heap_len() + *v)).unwrap()
+        }
         Some((k, v)) if k == "insn" => xs.set_insn_limit(Some(*v)).unwrap(),
         Some((k, v)) if k == "stack" => {
             // the stack fault is armed on top of the ordinary instruction budget: without it a
@@ -263,6 +283,7 @@ fn one0(case: &Case, r: &Rejected, st: &mut Stats) -> Result<bool, Violation> {
     let disarm = |xs: &mut Xstate| {
         xs.set_insn_limit(None).unwrap();
         xs.set_stack_limit(None).unwrap();
+        xs.set_heap_limit(None).unwrap();
     };
     arm(&mut c);
     let built = metered(&mut c, |c| c.compile(&text));
@@ -325,6 +346,15 @@ fn one0(case: &Case, r: &Rejected, st: &mut Stats) -> Result<bool, Violation> {
         let _ = a.read_stdout();
     } else {
         st.count("fault.failed_at_run");
+        if let Some((k, _)) = &r.limit {
+            match &res {
+                Err(Xerr::ErrorMsg(m)) if m.starts_with("stack limit reached") => st.count("fault.stack_limit_trip_at_run"),
+                Err(Xerr::ErrorMsg(m)) if m.starts_with("heap limit reached") => st.count("fault.heap_limit_trip_at_run"),
+                Err(Xerr::ErrorMsg(m)) if m.starts_with("insn limit reached") => {}
+                Err(_) if k == "insn-at-failure" && fail_meter.is_some() => st.count("fault.failure_on_last_budgeted_instructions"),
+                _ => {}
+            }
+        }
     }
     if !build_time {
         if let Err(Xerr::ErrorMsg(m)) = &res {
@@ -517,7 +547,8 @@ impl Engine for Reject {
         }
         // the base of the rejected source: structure-heavy, in its own name space, with sentinels
         let mut fr = f.clone();
-        fr.errors = if rng.chance(1, 5) { 60 } else { 0 };
+        let runtime_mode = rng.chance(1, 4);
+        fr.errors = if runtime_mode { 120 } else if rng.chance(1, 5) { 60 } else { 0 };
         let n = 4 + rng.below(40);
         let mut g = Gen::new(rng, fr, env.clone(), "r");
         let (base0, _) = g.source(n, &stack);
@@ -564,16 +595,30 @@ impl Engine for Reject {
             chosen.push(probes.remove(i));
         }
         let ntok = toks.len();
-        let pos = if rng.chance(1, 8) { ntok } else { rng.below(ntok + 1) };
-        let (prefix, trailing) = base_cut(&base, pos);
-        let (kind, fail) = *rng.pick(FAIL_KINDS);
-        let trailing = match rng.below(4) {
-            0 => String::new(),
-            1 => format!("{} 900500 println", trailing),
-            _ => trailing,
+        let rejected = if runtime_mode {
+            // the last clause of the statement: a whole, well-formed line that fails when it runs,
+            // under the ordinary budget, under a budget that ends on the failing instruction, or
+            // because a stack / heap limit trips in the middle of it
+            let limit = match rng.below(8) {
+                0 | 1 => None,
+                2 | 3 => Some(("insn-at-failure".to_string(), 0)),
+                4 => Some(("insn-at-failure".to_string(), 1)),
+                5 | 6 => Some(("stack".to_string(), rng.below(6))),
+                _ => Some(("heap".to_string(), rng.below(3))),
+            };
+            Rejected { prefix: base.clone(), kind: "fails-at-run".to_string(), fail: String::new(), trailing: "900500 println".to_string(), limit }
+        } else {
+            let pos = if rng.chance(1, 8) { ntok } else { rng.below(ntok + 1) };
+            let (prefix, trailing) = base_cut(&base, pos);
+            let (kind, fail) = *rng.pick(FAIL_KINDS);
+            let trailing = match rng.below(4) {
+                0 => String::new(),
+                1 => format!("{} 900500 println", trailing),
+                _ => trailing,
+            };
+            Rejected { prefix, kind: kind.to_string(), fail: fail.to_string(), trailing, limit: limit_for(kind) }
         };
-        let rejected = Rejected { prefix, kind: kind.to_string(), fail: fail.to_string(), trailing, limit: limit_for(kind) };
-        let enumerate = tier == Tier::Thorough && rng.chance(1, 2);
+        let enumerate = tier == Tier::Thorough && !runtime_mode && rng.chance(1, 2);
         Case { input, recording, history, rejected, base, enumerate, style_r, style_p, probes: chosen }
     }
 
